@@ -211,7 +211,11 @@ func (e *env) runUpload(c *Case) *Obs {
 		if k > 0 {
 			cl.c.Send(wire[:k], nil)
 		}
-		time.Sleep(30 * time.Millisecond) // what was sent is on its way to the origin before the end
+		// what was sent is with the proxy before the end (a reset discards what the send queue still holds)
+		if c.Reset && !rig.Drain(cl.rec.Conn, drainWait) {
+			o.Rig = fmt.Sprintf("client: %d of the %d body bytes before the reset still unsent after %v", rig.SendQueue(cl.rec.Conn), k, drainWait)
+		}
+		time.Sleep(30 * time.Millisecond)
 		if c.Reset {
 			rig.AbortConn(cl.rec.Conn)
 			o.Closed = "aborted"
@@ -263,6 +267,9 @@ func judgeUpload(ctx *core.Ctx, c *Case, o *Obs) {
 	ctx.Count("upload/" + logLabel(c.LogMode) + "/" + c.Framing + map[bool]string{true: "/complete", false: map[bool]string{true: "/rst", false: "/fin"}[c.Reset]}[c.K < 0] + srv)
 	if o.Setup != "" {
 		ctx.SpecFail(clauseServing, "", c, impl, "the client could not send its request: "+o.Setup)
+		return
+	}
+	if rigDidNotPerform(ctx, o) {
 		return
 	}
 	wire := c.wireBody()
